@@ -159,6 +159,123 @@ pub trait DynDec {
     fn into_work(self: Box<Self>) -> Option<DecoderWork>;
 }
 
+/// Walks `a` (the implementation's iterator) and `b` (a plain iterator over the same items, in index order, taken
+/// from the indexed accessor) through one script of the standard adaptors — `next`, `nth`, `by_ref().take`, `skip`,
+/// `size_hint`, then `step_by` / `collect` / `count` / `last`.  Every provided method of `Iterator` is specified in
+/// terms of `next`, so an override (`nth`, `size_hint`, `count`, `last`, …) that answers differently on a fresh or a
+/// partially consumed iterator shows up here.  `a` is used directly (an adaptor such as `map` would hide overrides).
+pub fn adaptor_walk<A: Iterator, B: Iterator>(
+    mut a: A,
+    mut b: B,
+    mut seed: u64,
+    eq: impl Fn(&A::Item, &B::Item) -> bool,
+    what: &str,
+    complaints: &mut Vec<String>,
+) {
+    let mut rnd = move |n: u64| {
+        seed = seed.wrapping_mul(6364136223846793005).wrapping_add(1442695040888963407);
+        (seed >> 33) % n
+    };
+    let same = |x: &Option<A::Item>, y: &Option<B::Item>| match (x, y) {
+        (None, None) => true,
+        (Some(x), Some(y)) => eq(x, y),
+        _ => false,
+    };
+    let mut trace = String::new();
+    let steps = rnd(5);
+    for _ in 0..steps {
+        match rnd(5) {
+            0 => {
+                trace.push_str("next();");
+                if !same(&a.next(), &b.next()) {
+                    complaints.push(format!("{}: after `{}` the item differs from the indexed accessor", what, trace));
+                    return;
+                }
+            }
+            1 => {
+                let k = rnd(4) as usize;
+                trace.push_str(&format!("nth({});", k));
+                if !same(&a.nth(k), &b.nth(k)) {
+                    complaints.push(format!("{}: after `{}` the item differs from the indexed accessor", what, trace));
+                    return;
+                }
+            }
+            2 => {
+                let k = rnd(4) as usize;
+                trace.push_str(&format!("by_ref().take({}).collect();", k));
+                let xs: Vec<A::Item> = a.by_ref().take(k).collect();
+                let ys: Vec<B::Item> = b.by_ref().take(k).collect();
+                if xs.len() != ys.len() || xs.iter().zip(ys.iter()).any(|(x, y)| !eq(x, y)) {
+                    complaints.push(format!("{}: after `{}` the items differ from the indexed accessor", what, trace));
+                    return;
+                }
+            }
+            3 => {
+                trace.push_str("size_hint();");
+                let (lo, hi) = a.size_hint();
+                let rem = b.size_hint().0; // exact for the reference
+                if lo > rem || hi.map_or(false, |h| h < rem) {
+                    complaints.push(format!(
+                        "{}: after `{}` size_hint = ({}, {:?}) but {} items remain",
+                        what, trace, lo, hi, rem
+                    ));
+                    return;
+                }
+            }
+            _ => {
+                let k = rnd(3) as usize;
+                trace.push_str(&format!("by_ref().skip({}).next();", k));
+                if !same(&a.by_ref().skip(k).next(), &b.by_ref().skip(k).next()) {
+                    complaints.push(format!("{}: after `{}` the item differs from the indexed accessor", what, trace));
+                    return;
+                }
+            }
+        }
+    }
+    match rnd(4) {
+        0 => {
+            let k = 1 + rnd(3) as usize;
+            trace.push_str(&format!("step_by({}).collect()", k));
+            // bounded: a broken `nth` can make `step_by` endless
+            let xs: Vec<A::Item> = a.step_by(k).take(70000).collect();
+            let ys: Vec<B::Item> = b.step_by(k).take(70000).collect();
+            if xs.len() != ys.len() || xs.iter().zip(ys.iter()).any(|(x, y)| !eq(x, y)) {
+                complaints.push(format!("{}: `{}` differs from the indexed accessor", what, trace));
+            }
+        }
+        1 => {
+            trace.push_str("collect()");
+            let xs: Vec<A::Item> = a.take(70000).collect();
+            let ys: Vec<B::Item> = b.take(70000).collect();
+            if xs.len() != ys.len() || xs.iter().zip(ys.iter()).any(|(x, y)| !eq(x, y)) {
+                complaints.push(format!("{}: `{}` differs from the indexed accessor", what, trace));
+            }
+        }
+        2 => {
+            trace.push_str("count()");
+            if a.count() != b.count() {
+                complaints.push(format!("{}: `{}` differs from the number of remaining items", what, trace));
+            }
+        }
+        _ => {
+            trace.push_str("last()");
+            if !same(&a.last(), &b.last()) {
+                complaints.push(format!("{}: `{}` differs from the indexed accessor", what, trace));
+            }
+        }
+    }
+}
+
+fn walk_seed(items: &[Vec<u8>], n: usize) -> u64 {
+    let mut h: u64 = 0xcbf29ce484222325 ^ (n as u64);
+    for v in items.iter().take(2) {
+        for b in v.iter().take(8) {
+            h = (h ^ (*b as u64)).wrapping_mul(0x100000001b3);
+        }
+    }
+    h
+}
+
 fn read_encoder_result(res: &reed_solomon_simd::EncoderResult, r: usize, sb: usize) -> EncOut {
     let mut complaints = vec![];
     let mut recovery = vec![];
@@ -201,6 +318,20 @@ fn read_encoder_result(res: &reed_solomon_simd::EncoderResult, r: usize, sb: usi
     for _ in 0..3 {
         if it.next().is_some() {
             complaints.push("recovery_iter yields an item after recovery_count items".into());
+        }
+    }
+    // iterator adaptors on fresh and partially consumed iterators
+    if complaints.is_empty() {
+        let seed = walk_seed(&recovery, r);
+        for w in 0..4u64 {
+            adaptor_walk(
+                res.recovery_iter(),
+                recovery.iter().map(|v| &v[..]),
+                seed.wrapping_add(w.wrapping_mul(0x9e3779b97f4a7c15)),
+                |x, y| x == y,
+                "recovery_iter",
+                &mut complaints,
+            );
         }
     }
     EncOut {
@@ -273,6 +404,20 @@ fn read_decoder_result(
     for _ in 0..3 {
         if it.next().is_some() {
             complaints.push("restored_original_iter yields an item after exhaustion".into());
+        }
+    }
+    if complaints.is_empty() {
+        let only: Vec<Vec<u8>> = restored.iter().map(|(_, v)| v.clone()).collect();
+        let seed = walk_seed(&only, k);
+        for w in 0..4u64 {
+            adaptor_walk(
+                res.restored_original_iter(),
+                restored.iter().map(|(i, v)| (*i, &v[..])),
+                seed.wrapping_add(w.wrapping_mul(0x9e3779b97f4a7c15)),
+                |x, y| x.0 == y.0 && x.1 == y.1,
+                "restored_original_iter",
+                &mut complaints,
+            );
         }
     }
     DecOut {
